@@ -486,3 +486,141 @@ def unkcover(ctx):
            "category defined in char.def without entries is accepted, and a character of that "
            "category which no lexicon entry covers cannot start any candidate (tokenization "
            "panics in Lattice::append_top_nodes)")
+
+
+def _lin(e):
+    """(core expression text, constant offset) of `x`, `x + c`, `x - c`, saturating/wrapping forms"""
+    e = strip_casts(e)
+    if e[0] == "binop" and e[1] in ("Add", "AddWithOverflow") and strip_casts(e[3])[0] == "const":
+        t, c = _lin(e[2])
+        return t, c + strip_casts(e[3])[1]
+    if e[0] == "binop" and e[1] in ("Sub", "SubWithOverflow") and strip_casts(e[3])[0] == "const":
+        t, c = _lin(e[2])
+        return t, c - strip_casts(e[3])[1]
+    if e[0] == "call" and short(e[1]) in ("saturating_add", "wrapping_add") and len(e[2]) == 2 \
+            and strip_casts(e[2][1])[0] == "const":
+        t, c = _lin(e[2][0])
+        return t, c + strip_casts(e[2][1])[1]
+    if e[0] == "call" and short(e[1]) in ("saturating_sub", "wrapping_sub") and len(e[2]) == 2 \
+            and strip_casts(e[2][1])[0] == "const":
+        t, c = _lin(e[2][0])
+        return t, c - strip_casts(e[2][1])[1]
+    return show(e), 0
+
+
+def unkspans(ctx):
+    """UNKSPAN (C03): the arithmetic shape of the unknown-word candidates in gen_unk_words.
+      * the grouped candidate spans start..start+run and is emitted iff run - limit <= 1
+        (limit = max_grouping_len, unbounded when None): `omitted when the run exceeds
+        max_grouping_len + 1`;
+      * the prefix candidates are start..start+i for i in 1..=min(length, run), stopping at the
+        end of the sentence;
+      * the fallback candidate is the single character start..start+1.
+    Comparisons are normalised as linear inequalities, so `run - 1 <= limit`, `run <= limit + 1`
+    and `run < limit + 2` are the same rule instance."""
+    crate = ctx.facts("A").lib
+    E = Effects(crate)
+    fa = E.fa(P_UNK)
+    S = Sym(E, fa)
+    loc = fn_loc(crate, P_UNK)
+    scans = [(b, t, S.operand(t["args"][1]), S.operand(t["args"][2])) for b, t in calls_named(fa, "scan_entries")]
+    ctx.floor("UNKSPAN", "scan_entries call sites", len(scans), 3)
+    start_txt = {show(s) for _, _, s, _ in scans}
+    ok0 = len(start_txt) == 1
+    ctx.ob("UNKSPAN", "all-candidates-start-at-the-position", ok0, loc,
+           "every candidate starts at the position being processed (%s)" % sorted(start_txt) if ok0 else
+           "candidates start at different positions: %s" % sorted(start_txt))
+    start = sorted(start_txt)[0]
+    kinds = {}
+    for b, t, s, e in scans:
+        txt, c = _lin(e)
+        if txt == start and c == 1:
+            kinds.setdefault("single", []).append(b)
+        elif "groupable" in show(e) and "Add" in show(e):
+            kinds.setdefault("grouped", []).append(b)
+        else:
+            kinds.setdefault("prefix", []).append((b, show(e)))
+    okk = all(len(kinds.get(k, [])) == 1 for k in ("single", "grouped", "prefix"))
+    ctx.ob("UNKSPAN", "three-candidate-forms", okk, loc,
+           "one grouped (start+run), one prefix (start+i) and one single-character (start+1) "
+           "candidate form" if okk else "candidate forms found: %s" % {k: len(v) for k, v in kinds.items()})
+    if not okk:
+        return
+    gb = kinds["grouped"][0]
+    # the limit test: the nearest dominating comparison that mentions the run length
+    best = None
+    for b in sorted(fa.dominators().get(gb, ()), reverse=True):
+        t = fa.term(b)
+        if t["k"] != "switch":
+            continue
+        e = S.operand(t["op"])
+        if e[0] == "binop" and e[1] in ("Le", "Lt", "Ge", "Gt") and "groupable" in show(e):
+            best = (b, e, t)
+            break
+    if best is None:
+        ctx.ob("UNKSPAN", "grouped-candidate-limited", False, fa.loc(gb),
+               "the grouped candidate is not guarded by a comparison of the run length with "
+               "max_grouping_len: over-long runs are not omitted")
+    else:
+        b, e, t = best
+        f_t, t_t = bool_switch_targets(t)
+        on_true = gb in fa.reachable(t_t, avoid={f_t}) if t_t != f_t else False
+        (lt, lc), (rt, rc) = _lin(e[2]), _lin(e[3])
+        opn = e[1]
+        # normalise to  run - limit <= k  on the edge that reaches the grouped candidate
+        if "groupable" in lt:
+            run_side = "l"
+        else:
+            run_side = "r"
+        if not on_true:
+            opn = {"Le": "Gt", "Lt": "Ge", "Ge": "Lt", "Gt": "Le"}[opn]
+        # l + lc OP r + rc
+        if run_side == "l":
+            # run + lc OP lim + rc  ->  run - lim OP rc - lc
+            k = rc - lc
+            if opn == "Lt":
+                k -= 1
+            ok = opn in ("Le", "Lt")
+        else:
+            # lim + lc OP run + rc -> run - lim OP' lc - rc
+            k = lc - rc
+            if opn == "Gt":
+                k -= 1
+            ok = opn in ("Ge", "Gt")
+        lim_txt = rt if run_side == "l" else lt
+        oklim = "map_or" in lim_txt or "unwrap_or" in lim_txt or "arg5" in lim_txt
+        good = ok and k == 1 and oklim
+        ctx.ob("UNKSPAN", "grouped-candidate-limited", good, fa.loc(b),
+               "the grouped candidate is emitted iff run - limit <= 1 (limit = %s)" % lim_txt[:50] if good else
+               "the grouped candidate is emitted iff run - limit %s %s (limit = %s): the property "
+               "omits it exactly when the run exceeds max_grouping_len + 1"
+               % ("<=" if ok else "?", k, lim_txt[:50]))
+        # default: unbounded when no limit is given
+        if "map_or" in lim_txt or "unwrap_or" in lim_txt:
+            okd = "18446744073709551615" in lim_txt
+            ctx.ob("UNKSPAN", "no-limit-means-unbounded", okd, fa.loc(b),
+                   "without max_grouping_len the limit is usize::MAX" if okd else
+                   "without max_grouping_len the limit is not unbounded (%s)" % lim_txt[:60])
+    # the prefix loop range
+    pb, ptxt = kinds["prefix"][0]
+    rng = None
+    for b, t in fa.calls():
+        if {strip_generics(x).rsplit("::", 1)[-1] for x in callee_paths(t)} & {"new"} and \
+                "RangeInclusive" in " ".join(callee_paths(t)) and len(t["args"]) == 2:
+            rng = ("incl", S.operand(t["args"][0]), S.operand(t["args"][1]), b)
+    for b, i, s in fa.stmts():
+        rv = s.get("rv")
+        if rv and rv["k"] == "agg" and str(rv.get("adt", "")).endswith("ops::Range") and len(rv["ops"]) == 2:
+            rng = rng or ("excl", S.operand(rv["ops"][0]), S.operand(rv["ops"][1]), b)
+    if rng is None:
+        raise EngineError("UNKSPAN: the prefix loop's range was not recognised")
+    kind, lo, hi, rb = rng
+    hit, hic = _lin(hi)
+    if kind == "excl":
+        hic -= 1
+    oklo = strip_casts(lo) == ("const", 1)
+    okhi = hic == 0 and "min(" in hit and "length(" in hit and "groupable" in hit
+    ctx.ob("UNKSPAN", "prefix-lengths-1..=min(length,run)", oklo and okhi, fa.loc(rb),
+           "prefix lengths run over 1..=min(length, run)" if oklo and okhi else
+           "prefix lengths run over %s..%s%s: the property asks for 1..=min(length, run)"
+           % (show(lo), "=" if kind == "incl" else "", show(hi)[:70]))
